@@ -442,15 +442,6 @@ def weak(o):
 
 
 # ---------------------------------------------------------------- implementation side
-def klong_cell(c):
-    if c[0] == "s":
-        return '"%s"' % c[1]
-    q = c[1]
-    if q % 4 == 0 and c[0] == "n" and not getattr(c, "real", False):
-        return str(q // 4)
-    return repr(q / 4.0)
-
-
 def klong_val(c, ty):
     if c[0] == "s":
         return '"%s"' % c[1]
@@ -472,6 +463,12 @@ class Impl:
         from klongpy import KlongInterpreter
         self.k = KlongInterpreter()
         self.k('.py("klongpy.db")')
+        # one database over a Klong dictionary; each case rebinds "T" in that dictionary
+        # (duckdb.connect costs ~70 ms, far more than a whole operation sequence)
+        self.k('q:::{}')
+        self.k('T::.table([["a" []]])')
+        self.k('q,"T",,T')
+        self.k('db::.db(q)')
 
     def canon_cell(self, v):
         import numpy as np
@@ -510,7 +507,7 @@ class Impl:
             vals = " ".join(klong_val(r[i], t) for r in case["rows"])
             parts.append('["%s" [%s]]' % (c, vals))
         k("T::.table([" + " ".join(parts) + "])")
-        k('db::.db(:{},"T",,T)')
+        k('q,"T",,T')
         # per-column literal style (real columns are written with a decimal point)
         style = dict(zip(cols, types))
         cur = list(cols)
